@@ -366,7 +366,7 @@ def stack_seq(an):
     return seq
 
 
-@rule("PEEP-SOUND", ["C05"], "each peephole rewrite preserves the stack effect given the VM arm's operand access order; control rewrites match the jump arms")
+@rule("PEEP-SOUND", ["C05", "C16", "C15"], "each peephole rewrite preserves the stack effect given the VM arm's operand access order; control rewrites match the jump arms")
 def peep_sound(ctx, r):
     fns = opt_fns(ctx, r)
     arms = _arms(ctx, r)
